@@ -387,4 +387,25 @@ theorem lookup_of_forall (l : List (Nat × α)) (a : Nat) (b : α)
         · exact absurd hqa.symm hp
         · exact ⟨q, hq, hqa⟩
 
+/-! ### hexadecimal blobs -/
+
+theorem unhex_hex (n : Nat) (h : n < 16) : unhexDigit (hexDigit n) = some n := by
+  revert n; decide
+
+theorem hexDigit_ne_quote (n : Nat) : hexDigit n ≠ '\'' := by
+  by_cases h : n < 16
+  · revert n; decide
+  · have : 16 ≤ n := by omega
+    obtain ⟨m, rfl⟩ : ∃ m, n = 16 + m := ⟨n - 16, by omega⟩
+    simp [hexDigit, List.getD]
+
+theorem unhexlify_hexlify (b : List Nat) (h : ∀ x ∈ b, x < 256) : unhexlify (hexlify b) = some b := by
+  induction b with
+  | nil => rfl
+  | cons x b ih =>
+    have hx : x < 256 := h x (by simp)
+    have ih' := ih (fun y hy => h y (by simp [hy]))
+    simp only [hexlify, unhexlify, unhex_hex (x / 16) (by omega), unhex_hex (x % 16) (by omega), ih']
+    congr 2; omega
+
 end PonyVerif.Model.SqlText
